@@ -124,6 +124,18 @@ def gen_cases(rng, tier):
             for r0 in (0, 1):
                 n += 1
                 yield {'op': 'sare', 'mode': mode, 'r0': r0, 'oc': n % NCLS, 'ok': (n // NCLS) % 3, 'body': lab(b, n)}
+    # the context object used again after its with block: force_reraise() / capture(); force_reraise()
+    for post in (1, 2):
+        for oc in range(NCLS):
+            for r0 in (0, 1):
+                yield {'op': 'sare', 'mode': 'post', 'post': post, 'r0': r0, 'oc': oc, 'ok': (oc + post) % 3, 'body': ['noop']}
+        for b in bodies(2 if quick else 3):
+            for r0 in (0, 1):
+                n += 1
+                yield {'op': 'sare', 'mode': 'post', 'post': post, 'r0': r0, 'oc': n % NCLS, 'ok': (n // NCLS) % 3, 'body': lab(b, n)}
+    for i in range(1500 if quick else 60000):
+        yield {'op': 'sare', 'mode': 'post', 'post': 1 + i % 2, 'r0': rng.randrange(2), 'oc': rng.randrange(NCLS), 'ok': rng.randrange(3),
+               'body': lab(rand_body(rng, rng.randint(3, 5), rich=(i % 4 == 0)), rng.randrange(1000))}
     # random deeper bodies, filters and direct calls mixed in
     for i in range(3000 if quick else 250000):
         d = 4 if i % 3 else rng.randint(5, 7)
@@ -189,18 +201,27 @@ def oracle(c, io):
     op = c['op']
     if op == 'sare':
         mode = c['mode']
-        if mode == 'with':
+        if mode in ('with', 'post'):
+            post = mode == 'post'
+            if post and not f['with_finished']: return 'harness: with statement not finished'
+            o_is_entry, o_none, o_is_body, tb_kept, nlog = ((f['w_is_entry'], f['w_none'], f['w_is_body_exc'], f['w_tb_kept'], f['w_logs2']) if post
+                                                          else (f['out_is_entry'], f['out_none'], f['out_is_body_exc'], f['entry_tb_kept'], f['logs2']))
             if f['completed']:
                 if f['flag']:
-                    if not f['out_is_entry']: return 'body completed with reraise on, but what came out is not the exception active on entry (%s)' % io.split(' ')[0]
-                    if not f['entry_tb_kept']: return 'the re-raised exception lost the traceback of its original raise'
+                    if not o_is_entry: return 'body completed with reraise on, but what came out is not the exception active on entry (%s)' % io.split(' ')[0]
+                    if not tb_kept: return 'the re-raised exception lost the traceback of its original raise'
                 else:
-                    if not f['out_none']: return 'body completed with reraise off, but an exception was raised (%s)' % io.split(' ')[0]
+                    if not o_none: return 'body completed with reraise off, but an exception was raised (%s)' % io.split(' ')[0]
             else:
-                if not f['out_is_body_exc']: return 'the body raised, but what came out is not the exception the body raised (%s)' % io.split(' ')[0]
+                if not o_is_body: return 'the body raised, but what came out is not the exception the body raised (%s)' % io.split(' ')[0]
                 want = 1 if f['flag'] else 0
-                if f['logs2'] != want: return 'body raised with reraise %s: %d log calls, expected %d' % (f['flag'], f['logs2'], want)
-                if want and not all(f['log2_names_entry']): return 'the log entry does not show the original exception'
+                if nlog != want: return 'body raised with reraise %s: %d log calls, expected %d' % (f['flag'], nlog, want)
+                if want and not all(f['log2_names_entry'][:1]): return 'the log entry does not show the original exception'
+            if post:
+                # the saved exception must still be the one force_reraise() raises afterwards
+                if not f['out_is_entry']:
+                    return 'force_reraise() after the with block did not raise the exception saved on entry (%s)' % io.split(' ')[0]
+                if not f['entry_tb_kept']: return 'force_reraise() after the with block lost the traceback of the original raise'
         elif mode == 'noactive':
             if not f['completed'] and f['flag'] is not None:
                 if not f['out_is_body_exc']: return 'the body raised, but what came out is not the exception the body raised'
@@ -253,9 +274,13 @@ def oracle(c, io):
     return None
 
 def zone(c):
-    """K13: force_reraise()/capture() called on the context inside its own block (or more than once in the
-    capture/force protocol)"""
+    """K13: force_reraise()/capture() called on the context inside its own block, or force_reraise() invoked a
+    second time on a context whose __exit__ already re-raised (decided by running the program: the with statement
+    re-raises exactly when the block completes with the flag on)"""
     if c['op'] == 'sare' and has_direct0(c['body']): return 'K13'
+    if c['op'] == 'sare' and c['mode'] == 'post' and c['post'] == 1:
+        f = json.loads(impl(c).split(' #', 1)[1])
+        if f['completed'] and f['flag']: return 'K13'
     return None
 
 def toks(b):
@@ -275,7 +300,8 @@ def toks(b):
 def encode(c):
     op = c['op']
     if op == 'sare':
-        return ['sare', {'with': 0, 'direct': 1, 'noactive': 2}[c['mode']], c['r0'], c['oc'], c['ok']] + toks(c['body'])
+        m = {'with': 0, 'direct': 1, 'noactive': 2, 'post': 2}[c['mode']] + c.get('post', 0)
+        return ['sare', m, c['r0'], c['oc'], c['ok']] + toks(c['body'])
     if op == 'filter': return ['filter', c['p'], c['use']] + toks(c['body'])
     if op == 'call': return ['call', c['p'], c['use'], c['a'], c['active'], c['oc'], c['ok']]
     if op == 'rpoe': return ['rpoe', c['rm']] + toks(c['body'])
@@ -287,7 +313,7 @@ def classify(c, io):
     if op == 'sare':
         out = io.split(' ')[0]
         kind = 'none' if out == 'out=None' else 'orig' if out.startswith('out=s0:') else 'new' if out.startswith('out=new') else 'other'
-        return 'sare:%s:%s:%s' % (c['mode'], 'direct-calls' if has_direct0(c['body']) else 'plain', kind)
+        return 'sare:%s:%s:%s' % (c['mode'] + str(c.get('post', '')), 'direct-calls' if has_direct0(c['body']) else 'plain', kind)
     if op == 'filter':
         return 'filter:use%d:%s' % (c['use'], 'suppressed' if io.startswith('out=None') and 'done=0' in io else 'done' if 'done=1' in io else 'propagated')
     return op
